@@ -6,7 +6,9 @@ fields of the harness schema L (sub-property + inverse on every field), executed
 monitored containers from random initial contents. Also: assignment of an iterable computed (lazily) from the
 field's own live contents (generator expression / filter, reversed, iter, itertools.chain, dict.fromkeys), and
 two-owner sequences in which a second instance is CONSTRUCTED with the live container of the first
-(`b = Cls(f=a.f)`) and both fields are written afterwards. Observation: the contents of the field(s) (list order and
+(`b = Cls(f=a.f)`) and both fields are written afterwards; and populations in which several DISTINCT objects
+compare equal (schema V, a Symbol dataclass with value equality) used in every operation on list and set fields,
+also through an alias. Observation: the contents of the field(s) (list order and
 repetitions significant for list fields, sets sorted) and the set of relation triples in the SymbolGraph
 (owner-specific)."""
 from __future__ import annotations
@@ -54,6 +56,10 @@ ASSUMPTIONS = [
     "elements, each recorded for IT; later writes through one field neither appear in the other field nor are "
     "recorded for the other owner) - the reading under which 'every element that becomes part of the field is "
     "recorded' can hold for the owner whose field it is",
+    "value equality: contents of a list are by position and identity, a set keeps the first of several equal "
+    "elements (Python set semantics), relations are per OBJECT (one graph node per instance) - every object handed "
+    "to an add operation is asserted, as an individual append/add does; a set literal passed to =, |= cannot hold "
+    "two equal elements, so such arguments are generated key-distinct",
     "item assignment uses indices in range (an out-of-range index raises IndexError after the hook has run; "
     "not generated)",
 ]
@@ -62,7 +68,8 @@ RULE = ("random sequences of 1..8 write operations on the three list fields and 
         "self references included; about half of the sequences stay outside the four triggers; non-trivial = at "
         "least two operations and a non-empty expected field; distinct by case text; plus n/3 two-owner sequences "
         "(0..3 writes on a, b constructed with a's live container, in 60% 1..4 further writes through either field; "
-        "1 in 9 on a field whose super-property field is declared later)")
+        "1 in 9 on a field whose super-property field is declared later); plus n/3 sequences (<= 6) over schema V, "
+        "5..7 objects sharing 2..3 values of the compared key")
 
 L_SEXP_CACHE: Dict[str, dict] = {}
 
@@ -71,19 +78,21 @@ def budget(tier: str) -> int:
     return 900 if tier == "quick" else 12000
 
 
-def _desc() -> dict:
-    if "L" not in L_SEXP_CACHE:
+def _desc(tag: str = "L") -> dict:
+    if tag not in L_SEXP_CACHE:
         from props import _pd
-        L_SEXP_CACHE["L"] = _pd.describe("L")
-    return L_SEXP_CACHE["L"]
+        L_SEXP_CACHE[tag] = _pd.describe(tag)
+    return L_SEXP_CACHE[tag]
 
 
-def _asis_step(cur: List[int], op, is_set: bool) -> List[int]:
+def _asis_step(cur: List[int], op, is_set: bool, keyf=None) -> List[int]:
     """contents Python semantics dictate (= the repaired code) — used only to choose item-assignment indices in range"""
     k = op[0]
 
+    kf = keyf or (lambda o: o)
+
     def add(c, x):
-        if is_set and x in c:
+        if is_set and any(kf(y) == kf(x) for y in c):
             return c
         return c + [x]
 
@@ -122,7 +131,11 @@ def _asis_step(cur: List[int], op, is_set: bool) -> List[int]:
                 out = add(out, x)
             return out
         if v == "keys":
-            return list(dict.fromkeys(cur))
+            out = []
+            for x in cur:
+                if not any(kf(y) == kf(x) for y in out):
+                    out.append(x)
+            return out
     raise ValueError(k)
 
 
@@ -140,12 +153,22 @@ def _fmt(op) -> str:
 
 
 def _sequence(rng, n_obj: int, is_set: bool, clean: bool, maxlen: int, no_setitem: bool = False, init=None,
-              minlen: int = 1):
+              minlen: int = 1, keys=None):
+    keyf = (lambda o: keys[o]) if keys else None
+
+    def as_set_literal(xs):
+        """a Python set literal cannot hold two equal elements: keep the first of each"""
+        out = []
+        for x in xs:
+            if not any((keyf(y) if keyf else y) == (keyf(x) if keyf else x) for y in out):
+                out.append(x)
+        return out
+
     if init is None:
         init = [rng.randrange(n_obj) for _ in range(rng.randint(0, 4))]
     cur: List[int] = []
     for x in init:
-        cur = _asis_step(cur, ("add" if is_set else "append", x), is_set)
+        cur = _asis_step(cur, ("add" if is_set else "append", x), is_set, keyf)
     ops = []
     for _ in range(rng.randint(minlen, maxlen)):
         xs = [rng.randrange(n_obj) for _ in range(rng.randint(0, 3))]
@@ -162,8 +185,10 @@ def _sequence(rng, n_obj: int, is_set: bool, clean: bool, maxlen: int, no_setite
         k = rng.choice(kinds)
         if k in ("append", "add"):
             op = (k, rng.randrange(n_obj))
-        elif k in ("extend", "update", "iadd", "iaddAlias"):
+        elif k in ("extend", "update"):
             op = (k, xs)
+        elif k in ("iadd", "iaddAlias"):
+            op = (k, as_set_literal(xs) if is_set else xs)
         elif k == "insert":
             op = (k, rng.randint(-len(cur) - 2, len(cur) + 2), rng.randrange(n_obj))
         elif k == "setitem":
@@ -172,7 +197,7 @@ def _sequence(rng, n_obj: int, is_set: bool, clean: bool, maxlen: int, no_setite
             op = (k, rng.randint(-len(cur), len(cur) - 1), rng.randrange(n_obj))
         elif k == "assign":
             if is_set:
-                xs = sorted(set(xs))
+                xs = as_set_literal(sorted(set(xs)))
             elif clean:
                 xs = sorted(set(xs))  # a list already in hash order without repetitions: outside F-C16-3
             op = (k, xs)
@@ -188,14 +213,30 @@ def _sequence(rng, n_obj: int, is_set: bool, clean: bool, maxlen: int, no_setite
         else:
             op = (k,)
         ops.append(op)
-        cur = _asis_step(cur, op, is_set)
+        cur = _asis_step(cur, op, is_set, keyf)
     return init, ops
 
 
-def _line(d: dict, n_obj: int, f: int, a: int, init, ops) -> str:
+def _line(d: dict, n_obj: int, f: int, a: int, init, ops, keys=None) -> str:
     objs = " ".join("(0 -)" for _ in range(n_obj))
-    return (f"(w {d['sexp']} (objs {objs}) (field {f}) (obj {a}) (init{''.join(' ' + str(x) for x in init)}) "
+    ks = f" (keys {' '.join(map(str, keys))})" if keys else ""
+    return (f"(w {d['sexp']} (objs {objs}){ks} (field {f}) (obj {a}) (init{''.join(' ' + str(x) for x in init)}) "
             f"(ops {' '.join(_fmt(o) for o in ops)}))")
+
+
+def _value_equal(rng, i: int) -> Case:
+    """a population in which several DISTINCT objects compare equal (schema V): lists keep them all by identity,
+    sets keep the first, and every one of them that is added gets its own relation"""
+    d = _desc("V")
+    n_obj = rng.randint(5, 7)
+    nkeys = max(2, n_obj // 2)
+    keys = [rng.randrange(nkeys) for _ in range(n_obj)]
+    f = rng.randrange(6)
+    is_set = d["kinds"][f] == "set"
+    a = rng.randrange(n_obj)
+    init, ops = _sequence(rng, n_obj, is_set, False, 6, keys=keys)
+    tags = ("value-equal", "set-field" if is_set else "list-field") + tuple(sorted({"op-" + o[0] for o in ops}))
+    return Case(_line(d, n_obj, f, a, init, ops, keys), tags, "random")
 
 
 def _line2(d: dict, n_obj: int, f: int, a: int, b: int, init, ops) -> str:
@@ -255,6 +296,8 @@ def generate(rng, tier, n):
         cases.append(Case(_line(d, n_obj, f, a, init, ops), tags, "random"))
     for i in range(max(40, n // 3)):
         cases.append(_two_owner(rng, d, i))
+    for i in range(max(60, n // 3)):
+        cases.append(_value_equal(rng, i))
     return cases
 
 
@@ -312,7 +355,7 @@ def revive(case: Case) -> Case:
     if not m:
         return case
     try:
-        sexp = _desc()["sexp"]
+        sexp = _desc(m.group(2))["sexp"]
     except Exception:
         return case
     return Case(f"({m.group(1)} {sexp} (objs " + case.line[m.end():], case.tags, case.origin, case.payload)
